@@ -652,3 +652,92 @@ Proof.
   - unfold resolve_item. cbn [n_alias n_header]. rewrite Hs. apply sget_sset_same.
   - unfold resolve_hdr. cbn [n_hdr]. rewrite Ei'. apply set_if_all_sets. apply sget_In. exact Hs.
 Qed.
+
+(* ---- after add_entries, for the names of a configuration table ---- *)
+Lemma smem_sset {V} (m : list (string * V)) k v k' :
+  smem (sset m k v) k' = true <-> k = k' \/ smem m k' = true.
+Proof.
+  unfold smem, dmem. fold (sget (sset m k v) k') (sget m k').
+  destruct (String.eqb k k') eqn:E.
+  - apply String.eqb_eq in E. subst k'. rewrite sget_sset_same. split; [left; reflexivity|reflexivity].
+  - apply String.eqb_neq in E. rewrite (sget_sset_other m k v k' E).
+    split; [intros H; right; exact H|intros [H|H]; [contradiction|exact H]].
+Qed.
+
+Lemma read_conf2_mem t name als : In (name, als) t -> smem (read_conf2 t) name = true.
+Proof.
+  unfold read_conf2. generalize (@nil (string * list string)) as acc.
+  induction t as [|ln t IH]; intros acc Hin; [destruct Hin|]. cbn [fold_left]. destruct Hin as [->|Hin].
+  - cbn [fst snd]. assert (H : smem (sset acc name (als ++ [name])) name = true) by (apply smem_sset; left; reflexivity).
+    revert H. generalize (sset acc name (als ++ [name])). clear. induction t as [|ln t IH]; intros m H; cbn [fold_left]; [exact H|].
+    apply IH. apply smem_sset. right. exact H.
+  - apply IH. exact Hin.
+Qed.
+
+Lemma init_names_alias2 t hdr n : init_names t hdr = Some n -> n_alias2 n = read_conf2 t.
+Proof.
+  unfold init_names.
+  destruct (all_some (map (sget (sset (fold_left augment hdr (read_conf t)) EmptyString EmptyString)) hdr)); [|discriminate].
+  destruct (sNoDupb l); [|discriminate]. intros H. inversion H. reflexivity.
+Qed.
+
+Lemma add_name_alias_kept n entry n' i :
+  smem (n_alias2 n) (lower entry) = true -> add_name n entry = Some (n', i) -> n_alias n' = n_alias n.
+Proof.
+  intros M. unfold add_name. rewrite M.
+  destruct (sget (n_alias n) (lower entry)) as [name0|]; [|discriminate].
+  destruct (sget (n_alias2 n) name0) as [spellings|]; [|discriminate].
+  match goal with |- match ?x with _ => _ end = _ -> _ => destruct x end; [|discriminate].
+  intros H. inversion H. reflexivity.
+Qed.
+
+(* add_entries(entry, ...) for a configured name that is not yet a column: the
+   new column is reached by the name and by every configured alias, in lower
+   and in upper case, through wl[id, s] and through the entry= arguments *)
+Theorem add_name_configured t hdr n name als entry n' i :
+  conf_reachable t -> conf_names_lower t -> init_names t hdr = Some n ->
+  In (name, als) t -> lower entry = name -> add_name n entry = Some (n', i) ->
+  i = S (max_idx (n_hdr n)) /\
+  forall a s, In a (name :: als) -> s = lower a \/ s = upper a ->
+    resolve_item n' s = Some i /\ resolve_hdr n' s = Some i.
+Proof.
+  intros R NL Hn Hin Le Ha.
+  pose proof (init_names_alias t hdr n Hn) as Ea.
+  destruct (NL name als Hin) as [Ln NE].
+  assert (M : smem (n_alias2 n) (lower entry) = true).
+  { rewrite (init_names_alias2 t hdr n Hn), Le. exact (read_conf2_mem t name als Hin). }
+  pose proof (add_name_alias_kept n entry n' i M Ha) as Ek.
+  assert (Look : forall b x, In b (name :: als) -> x = lower b \/ x = upper b -> sget (n_alias n') x = Some name).
+  { intros b x Hb Hx. rewrite Ek, Ea. apply final_alias_preserves; [exact (spelled_nonempty b x (NE b Hb) Hx)|].
+    destruct (R name als Hin b Hb) as [R1 R2]. destruct Hx as [-> | ->]; assumption. }
+  assert (L1 : sget (n_alias n') (lower entry) = Some name).
+  { rewrite Le. apply (Look name name (or_introl eq_refl)). left. symmetry. exact Ln. }
+  assert (L2 : sget (n_alias n') name = Some name).
+  { apply (Look name name (or_introl eq_refl)). left. symmetry. exact Ln. }
+  destruct (add_name_reachable n entry n' i name Ha L1 L2) as [Ei Hs].
+  split; [exact Ei|]. intros a s Hb Hx. apply Hs. exact (Look a s Hb Hx).
+Qed.
+
+(* add_entries(entry, ...) for a name the configuration does not know: the new
+   column is reached by the lower-case and the upper-case spelling of the name *)
+Theorem add_name_fresh n entry n' i :
+  smem (n_alias2 n) (lower entry) = false -> add_name n entry = Some (n', i) ->
+  i = S (max_idx (n_hdr n)) /\
+  forall s, s = lower entry \/ s = upper entry -> resolve_item n' s = Some i /\ resolve_hdr n' s = Some i.
+Proof.
+  intros M Ha.
+  assert (Ealias : n_alias n' = sset (sset (n_alias n) (lower entry) (lower entry)) (upper entry) (lower entry)).
+  { revert Ha. unfold add_name. rewrite M.
+    destruct (sget (sset (sset (n_alias n) (lower entry) (lower entry)) (upper entry) (lower entry)) (lower entry)) as [name0|]; [|discriminate].
+    destruct (sget (sset (n_alias2 n) (lower entry) [lower entry; upper entry]) name0) as [spellings|]; [|discriminate].
+    match goal with |- match ?x with _ => _ end = _ -> _ => destruct x end; [|discriminate].
+    intros H. inversion H. reflexivity. }
+  assert (Look : forall s, s = lower entry \/ s = upper entry -> sget (n_alias n') s = Some (lower entry)).
+  { intros s Hs. rewrite Ealias. destruct (String.eqb (upper entry) s) eqn:E.
+    - apply String.eqb_eq in E. subst s. apply sget_sset_same.
+    - apply String.eqb_neq in E. rewrite sget_sset_other by exact E.
+      destruct Hs as [-> | ->]; [apply sget_sset_same|contradiction]. }
+  destruct (add_name_reachable n entry n' i (lower entry) Ha (Look _ (or_introl eq_refl)) (Look _ (or_introl eq_refl)))
+    as [Ei Hs].
+  split; [exact Ei|]. intros s Hx. apply Hs. exact (Look s Hx).
+Qed.
